@@ -870,6 +870,10 @@ func (c *Client) elicit(ctx context.Context, req *ElicitRequest) (*ElicitResult,
 		return nil, &jsonrpc.Error{Code: jsonrpc.CodeInvalidParams, Message: "client does not support elicitation"}
 	}
 
+	if req.Params == nil {
+		return nil, &jsonrpc.Error{Code: jsonrpc.CodeInvalidParams, Message: "missing required \"params\""}
+	}
+
 	// Validate the elicitation parameters based on the mode.
 	mode := req.Params.Mode
 	if mode == "" {
@@ -1538,7 +1542,7 @@ func (cs *ClientSession) callProgressNotificationHandler(ctx context.Context, pa
 
 func (c *Client) callElicitationCompleteHandler(ctx context.Context, req *ElicitationCompleteNotificationRequest) (Result, error) {
 	// Check if there's a pending elicitation waiting for this notification.
-	if cs, ok := req.GetSession().(*ClientSession); ok {
+	if cs, ok := req.GetSession().(*ClientSession); ok && req.Params != nil {
 		cs.pendingElicitationsMu.Lock()
 		if ch, exists := cs.pendingElicitations[req.Params.ElicitationID]; exists {
 			select {
